@@ -29,6 +29,8 @@ type PropSpec struct {
 	Funcs func(e *Engine) []string
 	Assumptions []string
 	Bounded     func(e *Engine, tier string, ev *Evidence) (violations []string)
+	Prepare     func(e *Engine)
+	NoTags      bool // claim only what obligations.lock lists (property tags in contract files are informational)
 }
 
 var propSpecs = map[string]*PropSpec{}
@@ -148,11 +150,17 @@ func runCheck(prop, tier, repo string, overlay map[string][]byte, writeEvidence 
 		fmt.Fprintln(os.Stderr, "govc: cannot load repository:", err)
 		return 2, nil
 	}
+	if spec.Prepare != nil {
+		spec.Prepare(eng)
+	}
 	loadS := time.Since(t0).Seconds()
 	out := &checkOutcome{}
 	// 1. functions claimed: contract-tagged + lock file
 	claimed := map[string]bool{}
 	for k, ct := range eng.contracts.Funcs {
+		if spec.NoTags || ct.FuncType || ct.FieldFn {
+			continue
+		}
 		for _, p := range ct.Props {
 			if p == prop {
 				claimed[k] = true
@@ -257,7 +265,9 @@ func runCheck(prop, tier, repo string, overlay map[string][]byte, writeEvidence 
 		matched := false
 		for _, kf := range kfs {
 			if kf.Kind == "finding" && kf.Prop == prop && kf.Oblig == o.Name {
-				out.known = append(out.known, fmt.Sprintf("KNOWN-FINDING: property=%s %s", prop, strings.TrimSpace(strings.TrimPrefix(kf.Text, "finding:"))))
+				txt := strings.TrimSpace(strings.TrimPrefix(kf.Text, "finding:"))
+				txt = strings.TrimSpace(strings.TrimPrefix(txt, "property="+prop))
+				out.known = append(out.known, fmt.Sprintf("KNOWN-FINDING: property=%s %s", prop, txt))
 				matched = true
 				break
 			}
